@@ -92,6 +92,11 @@ TARGETS = [
          externals={
              "Sha256::hash": {"params": ["Vec<u8>"], "ret": "Sha256Hash"},
              "Sha256Hash.to_byte_array": {"params": [], "ret": "Vec<u8>"},
+         },
+         # the `fngen` driver runs the generated store with the executable SHA-256 of Prim/Sha256.lean
+         driver_externals={
+             "ext_Sha256_hash": "(fun (l : List Nat) => VlsModel.Sha256.sha256 (l.map UInt8.ofNat))",
+             "ext_Sha256Hash_to_byte_array": "(fun (b : List UInt8) => b.map UInt8.toNat)",
          }, fns=[
         ("CounterpartyCommitmentSecrets", "new", "C03", "C03_fn_secrets_new"),
         ("CounterpartyCommitmentSecrets", "place_secret", "C03", "C03_fn_place_secret"),
@@ -350,7 +355,7 @@ class Codec:
         raise RsError("no encoder for %r" % (t,))
 
 
-def dispatch_for(unit, area, fns, arms, defs, errall=(), filt=()):
+def dispatch_for(unit, area, fns, arms, defs, errall=(), filt=(), drv=None):
     """adds the `call_…` definitions of the translated functions of one unit"""
     cd = Codec(unit, area)
     calls = []
@@ -360,6 +365,10 @@ def dispatch_for(unit, area, fns, arms, defs, errall=(), filt=()):
         extargs = ""
         if f.exts and (f.impl, f.name) in errall and [n for n, _ in f.exts] == ["policy_filter_err"]:
             extargs = "(fun _ => true) "
+        elif f.exts and drv and all(n in drv for n, _ in f.exts):
+            # `driver_externals` of the target: every external of this function is instantiated with the given Lean term
+            # (e.g. the executable SHA-256 of Prim/Sha256.lean), so the differential group can run it against the real code
+            extargs = "".join(drv[n] + " " for n, _ in f.exts)
         elif f.exts and not const_filter:
             arms.append('  | "%s" :: _ => "nodriver"' % key)
             continue
@@ -433,9 +442,10 @@ def extract(repo):
         imports.append("import VlsModel.Gen.Fn%s" % tg["area"])
         filt = set((t[0] + "." if t[0] else "") + t[1] for t in tg["fns"] if len(t) > 4 and t[4] == "filter")
         dispatch_for(u, tg["area"], [u.fns[k] for k in u.order], arms, ddefs,
-                     errall={(t[0] or None, t[1]) for t in tg["fns"] if len(t) > 4 and t[4] == "errall"}, filt=filt)
+                     errall={(t[0] or None, t[1]) for t in tg["fns"] if len(t) > 4 and t[4] == "errall"}, filt=filt,
+                     drv=tg.get("driver_externals"))
     outputs["FnDispatch.lean"] = "\n".join(
-        ["import VlsModel.Drv.FnCodec"] + imports +
+        ["import VlsModel.Drv.FnCodec", "import VlsModel.Prim.Sha256"] + imports +
         ["/-! Dispatch table of the driver model `fngen`: `<Area>.<function> <args…>` -> outcome of the generated",
          "    definition (codec: Drv/FnCodec.lean).  Opaque type parameters are instantiated with `Nat`. -/",
          "namespace VlsModel.Gen.FnDispatch", "open VlsModel VlsModel.Gen VlsModel.Drv.FnCodec", ""] + ddefs +
